@@ -473,13 +473,19 @@ fn post(_case: &str, line: &str) -> String {
 // `run` = a parent that feeds case lines to worker subprocesses (`worker`), one line at a time.  Inside a worker every
 // case runs under the thread watchdog above (PANIC / HANG).  What no in-process guard can catch is caught by the parent:
 // ABORT = the worker process died on the case (stack overflow, allocation failure, process::abort, OOM kill),
-// HANG  = no answer within 20 s (worker killed).  The worker's address space is capped so that a runaway allocation
-// ends the worker, not the machine.
+// HANG  = no answer within 20 s (worker killed).
+// Memory ceiling: a worker's address space is capped at 2 GiB (malloc arenas limited to 2 so that short-lived threads
+// do not eat it), so a runaway allocation ends the worker quickly, not the machine.
+// A HANG / ABORT is confirmed by a second attempt in a fresh worker before it is reported.
+// Hang budget: every confirmed HANG / ABORT line carries the impl-level oracle message `!hang: <case>` (the replay then names the
+// input); after HNV_HANG_BUDGET (default 8) such cases nothing more is executed and every remaining case gets the line
+// `SKIPPED hang-budget-exhausted` -- one line per case in every situation, and a systematic hang costs minutes, not hours.
+const WORKER_AS_LIMIT: u64 = 2 << 30;
 fn worker_main() {
     use std::io::{BufRead, Write};
     std::panic::set_hook(Box::new(|_| {}));
     unsafe {
-        let lim = libc::rlimit { rlim_cur: 6 << 30, rlim_max: 6 << 30 };
+        let lim = libc::rlimit { rlim_cur: WORKER_AS_LIMIT, rlim_max: WORKER_AS_LIMIT };
         libc::setrlimit(libc::RLIMIT_AS, &lim);
     }
     let stdin = std::io::stdin();
@@ -497,7 +503,7 @@ fn spawn_worker() -> Worker {
     use std::io::BufRead;
     use std::process::{Command, Stdio};
     let exe = std::env::current_exe().expect("exe");
-    let mut proc = Command::new(exe).arg("worker").stdin(Stdio::piped()).stdout(Stdio::piped()).stderr(Stdio::null()).spawn().expect("spawn worker");
+    let mut proc = Command::new(exe).arg("worker").env("MALLOC_ARENA_MAX", "2").stdin(Stdio::piped()).stdout(Stdio::piped()).stderr(Stdio::null()).spawn().expect("spawn worker");
     let out = proc.stdout.take().expect("stdout");
     let stdin = proc.stdin.take();
     let (tx, rx) = mpsc::channel();
@@ -506,39 +512,63 @@ fn spawn_worker() -> Worker {
 }
 fn parent_run() {
     use std::io::{BufRead, Write};
+    use std::sync::atomic::{AtomicUsize, Ordering};
     let threads: usize = std::env::var("HNV_THREADS").ok().and_then(|s| s.parse().ok()).unwrap_or(16).max(1);
+    let budget: usize = std::env::var("HNV_HANG_BUDGET").ok().and_then(|s| s.parse().ok()).unwrap_or(8).max(1);
+    let spent = AtomicUsize::new(0);
     let lines: Vec<String> = std::io::stdin().lock().lines().map(|l| l.unwrap()).collect();
     let n = lines.len();
-    let chunk = ((n + threads - 1) / threads).max(1);
     let mut results: Vec<String> = vec![String::new(); n];
     if n > 0 {
-        std::thread::scope(|s| {
-            for (ls, rs) in lines.chunks(chunk).zip(results.chunks_mut(chunk)) {
-                s.spawn(move || {
-                    let mut w = spawn_worker();
-                    for (l, r) in ls.iter().zip(rs.iter_mut()) {
-                        let mut attempt = 0;
-                        loop {
-                            attempt += 1;
-                            let sent = match w.stdin.as_mut() { Some(si) => writeln!(si, "{}", l).and_then(|_| si.flush()).is_ok(), None => false };
-                            if !sent && attempt == 1 { let _ = w.proc.kill(); let _ = w.proc.wait(); w = spawn_worker(); continue; }
-                            let res = if !sent { "ABORT".to_string() } else {
-                                match w.rx.recv_timeout(Duration::from_secs(20)) {
-                                    Ok(x) => x,
-                                    Err(mpsc::RecvTimeoutError::Timeout) => "HANG".to_string(),
-                                    Err(mpsc::RecvTimeoutError::Disconnected) => "ABORT".to_string(),
-                                }
-                            };
-                            if res.starts_with("HANG") || res == "ABORT" { let _ = w.proc.kill(); let _ = w.proc.wait(); w = spawn_worker(); }
-                            *r = res;
-                            break;
-                        }
-                    }
-                    w.stdin = None;
-                    let _ = w.proc.wait();
-                });
+        let (spent, lines) = (&spent, &lines);
+        // one attempt of one case in worker `w`; on HANG / ABORT the worker is replaced
+        fn attempt(w: &mut Worker, l: &str) -> String {
+            use std::io::Write;
+            let mut sent = match w.stdin.as_mut() { Some(si) => writeln!(si, "{}", l).and_then(|_| si.flush()).is_ok(), None => false };
+            if !sent { // the worker was already gone (it exits after reporting a HANG): start a new one and send again
+                let _ = w.proc.kill(); let _ = w.proc.wait(); *w = spawn_worker();
+                sent = match w.stdin.as_mut() { Some(si) => writeln!(si, "{}", l).and_then(|_| si.flush()).is_ok(), None => false };
             }
+            let res = if !sent { "ABORT".to_string() } else {
+                match w.rx.recv_timeout(Duration::from_secs(20)) {
+                    Ok(x) => x,
+                    Err(mpsc::RecvTimeoutError::Timeout) => "HANG".to_string(),
+                    Err(mpsc::RecvTimeoutError::Disconnected) => "ABORT".to_string(),
+                }
+            };
+            if res.starts_with("HANG") || res == "ABORT" { let _ = w.proc.kill(); let _ = w.proc.wait(); *w = spawn_worker(); }
+            res
+        }
+        // cases are dealt round-robin so that the expensive kinds (pools, histories), which the generator emits together,
+        // are spread over all workers
+        let parts: Vec<Vec<(usize, String)>> = std::thread::scope(|s| {
+            let hs: Vec<_> = (0..threads.min(n)).map(|k| s.spawn(move || {
+                let mut w = spawn_worker();
+                let mut out: Vec<(usize, String)> = Vec::new();
+                let mut i = k;
+                while i < n {
+                    let l = &lines[i];
+                    if spent.load(Ordering::SeqCst) >= budget { out.push((i, "SKIPPED hang-budget-exhausted".to_string())); i += threads; continue; }
+                    let mut res = attempt(&mut w, l);
+                    if res.starts_with("HANG") || res == "ABORT" {
+                        // confirm in a fresh worker: a real hang / crash is deterministic, a stalled machine is not
+                        let again = attempt(&mut w, l);
+                        if again.starts_with("HANG") || again == "ABORT" {
+                            spent.fetch_add(1, Ordering::SeqCst);
+                            let what = if again == "ABORT" { "the worker process died (allocation failure / stack overflow / abort), twice, on" } else { "no result within the watchdog limits, twice, for" };
+                            res = format!("{}\t!hang: {} the input {}", again.split('\t').next().unwrap_or("HANG"), what, l.chars().take(400).collect::<String>());
+                        } else { res = again; }
+                    }
+                    out.push((i, res));
+                    i += threads;
+                }
+                w.stdin = None;
+                let _ = w.proc.wait();
+                out
+            })).collect();
+            hs.into_iter().map(|h| h.join().expect("driver thread")).collect()
         });
+        for p in parts { for (i, r) in p { results[i] = r; } }
     }
     let stdout = std::io::stdout();
     let mut o = std::io::BufWriter::new(stdout.lock());
